@@ -1,7 +1,122 @@
 //! More operations (rounding, comparison, hashing, text, conversions, roots, serde ...)
-use serde_json::Value;
+use std::num::{NonZeroU64, NonZeroU8};
+
+use bigdecimal::{BigDecimal, BigDecimalRef, Context, RoundingMode};
+use num_bigint::{BigInt, Sign};
+use num_traits::{ToPrimitive, Zero};
+use serde_json::{json, Value};
+
+use crate::exec::*;
+use crate::wire::*;
+
+fn d(x: BigDecimal) -> Value {
+    json!({ "d": dec_to_json(&x) })
+}
+fn sign_of(v: &Value) -> Sign {
+    match v.as_i64().expect("sign") {
+        -1 => Sign::Minus,
+        0 => Sign::NoSign,
+        _ => Sign::Plus,
+    }
+}
+/// precision argument: small JSON int "p", or big integer "P"
+fn precision_of(ev: &Value) -> u64 {
+    if let Some(p) = ev.get("p") {
+        p.as_u64().expect("p")
+    } else {
+        json_to_bigint(&ev["P"]).to_u64().expect("P fits u64")
+    }
+}
 
 pub fn exec_more(ev: &Value) -> Value {
     let op = ev["op"].as_str().expect("op");
-    panic!("HARNESS: unknown op {}", op)
+    let form = ev.get("form").and_then(|f| f.as_str()).unwrap_or("");
+    match op {
+        // ---------------------------------------------------------------- rounding to a scale (C06)
+        "with_scale_round" => d(json_to_dec(&ev["a"]).with_scale_round(ev["t"].as_i64().expect("t"), mode_of(&ev["m"]))),
+        "round" => d(json_to_dec(&ev["a"]).round(ev["t"].as_i64().expect("t"))),
+        "round_pair" => {
+            let r = mode_of(&ev["m"]).round_pair(
+                sign_of(&ev["sign"]),
+                (ev["lhs"].as_u64().unwrap() as u8, ev["rhs"].as_u64().unwrap() as u8),
+                ev["tz"].as_bool().unwrap(),
+            );
+            json!({ "i": r })
+        }
+        "round_u32" => {
+            let value = json_to_bigint(&ev["value"]).to_u32().expect("u32 value");
+            let r = mode_of(&ev["m"]).round_u32(
+                NonZeroU8::new(ev["at"].as_u64().unwrap() as u8).unwrap(),
+                sign_of(&ev["sign"]),
+                value,
+                ev["tz"].as_bool().unwrap(),
+            );
+            json!({ "n": u128_to_json(r as u128) })
+        }
+        // ---------------------------------------------------------------- rounding to a precision (C07)
+        "with_precision_round" => {
+            let p = NonZeroU64::new(precision_of(ev)).expect("nonzero precision");
+            d(json_to_dec(&ev["a"]).with_precision_round(p, mode_of(&ev["m"])))
+        }
+        "ctx_round" => {
+            let a = json_to_dec(&ev["a"]);
+            let ctx = ctx_of(ev);
+            match form {
+                "round_decimal" => d(ctx.round_decimal(a.clone())),
+                "round_decimal_ref_ref" => d(ctx.round_decimal_ref(&a)),
+                "round_decimal_ref_dref" => d(ctx.round_decimal_ref(a.to_ref())),
+                "round_decimal_ref_rbigint" => {
+                    let (n, e) = a.as_bigint_and_exponent();
+                    assert_eq!(e, 0);
+                    d(ctx.round_decimal_ref(&n))
+                }
+                "round_with_context" => d(a.to_ref().round_with_context(&ctx)),
+                _ => panic!("HARNESS: unknown ctx_round form {}", form),
+            }
+        }
+        "ctx_add" => {
+            let a = json_to_dec(&ev["a"]);
+            let b = json_to_dec(&ev["b"]);
+            let ctx = ctx_of(ev);
+            match form {
+                "add_refs_ref_ref" => d(ctx.add_refs(&a, &b)),
+                "add_refs_dref_dref" => d(ctx.add_refs(a.to_ref(), b.to_ref())),
+                "add_refs_ref_dref" => d(ctx.add_refs(&a, b.to_ref())),
+                "add_refs_rbigint_ref" => {
+                    let (n, e) = a.as_bigint_and_exponent();
+                    assert_eq!(e, 0);
+                    d(ctx.add_refs(&n, &b))
+                }
+                "add_refs_into_ref_ref" => {
+                    let mut dest = BigDecimal::from(-7);
+                    ctx.add_refs_into(&a, &b, &mut dest);
+                    d(dest)
+                }
+                "add_refs_into_dref_ref" => {
+                    let mut dest = BigDecimal::from(-7);
+                    ctx.add_refs_into(a.to_ref(), &b, &mut dest);
+                    d(dest)
+                }
+                _ => panic!("HARNESS: unknown ctx_add form {}", form),
+            }
+        }
+        "ctx_default" => {
+            let c = Context::default();
+            json!({"ctx": {"precision": c.precision().get(), "mode": mode_name(c.rounding_mode())}})
+        }
+        "ctx_setters" => {
+            // constructor / setters are identities on (precision, mode)
+            let p = NonZeroU64::new(ev["p"].as_u64().unwrap()).unwrap();
+            let m = mode_of(&ev["m"]);
+            let c = match form {
+                "new" => Context::new(p, m),
+                "with_precision" => Context::default().with_rounding_mode(m).with_precision(p),
+                "with_prec" => Context::default().with_rounding_mode(m).with_prec(p.get()).unwrap(),
+                "with_rounding_mode" => Context::default().with_precision(p).with_rounding_mode(m),
+                _ => panic!("HARNESS: unknown ctx_setters form {}", form),
+            };
+            json!({"ctx": {"precision": c.precision().get(), "mode": mode_name(c.rounding_mode())}})
+        }
+        _ => crate::exec3::exec_more(ev),
+    }
 }
